@@ -45,7 +45,15 @@ type OrgbServer struct {
 	Requests    int
 	// Mute: the server accepts connections and reads requests but never answers (a server that hangs)
 	Mute bool
+	// StallAfter > 0: after that many LED frames the server stops reading from its connections (it hangs while the client
+	// keeps sending; with small socket buffers the client's next writes block)
+	StallAfter int
+	stalled    chan struct{}
+	done       chan struct{}
 }
+
+// Stalled is closed when the server has stopped reading.
+func (s *OrgbServer) Stalled() <-chan struct{} { return s.stalled }
 
 func orgbString(s string) []byte {
 	b := make([]byte, 2, 3+len(s))
@@ -91,7 +99,7 @@ func NewOrgbServer(controllers []OrgbController) (*OrgbServer, error) {
 	if err != nil {
 		return nil, err
 	}
-	s := &OrgbServer{ln: ln, Port: ln.Addr().(*net.TCPAddr).Port, controllers: controllers, frames: map[int][]OrgbFrame{}, notify: make(chan struct{}, 1)}
+	s := &OrgbServer{ln: ln, Port: ln.Addr().(*net.TCPAddr).Port, controllers: controllers, frames: map[int][]OrgbFrame{}, notify: make(chan struct{}, 1), stalled: make(chan struct{}), done: make(chan struct{})}
 	go s.accept()
 	return s, nil
 }
@@ -123,6 +131,17 @@ func (s *OrgbServer) serve(conn net.Conn) {
 	defer conn.Close()
 	hdr := make([]byte, 16)
 	for {
+		if s.StallAfter > 0 && s.Seq() >= s.StallAfter {
+			s.mu.Lock()
+			select {
+			case <-s.stalled:
+			default:
+				close(s.stalled)
+			}
+			s.mu.Unlock()
+			<-s.done // hangs with the connection open until the server is closed
+			return
+		}
 		if _, err := io.ReadFull(conn, hdr); err != nil {
 			return
 		}
@@ -226,6 +245,11 @@ func (s *OrgbServer) WaitFrame(d time.Duration) bool {
 func (s *OrgbServer) Close() {
 	s.ln.Close()
 	s.mu.Lock()
+	select {
+	case <-s.done:
+	default:
+		close(s.done)
+	}
 	for _, c := range s.conns {
 		c.Close()
 	}
